@@ -3,13 +3,14 @@
 from __future__ import annotations
 
 import itertools
+import os
 import re
 
 from ..core import Check, classify_exc
-from ..g import g_Z, g_list, g_str
+from ..g import g_Z, g_list, g_opt, g_str
 from . import c12
 
-IMPORTS = "PyPrims Cond CondPrint CondParen StrLit TagTree PathSyntax"
+IMPORTS = "PyPrims Cond CondPrint CondParen StrLit TagTree PathSyntax ExprSyntax"
 
 _ENV = None
 
@@ -684,7 +685,7 @@ def etoks_text(toks, rng):
 EXPR_TOK = re.compile(
     r"\[\s*(?P<iidx>-?\d+)\s*\]|\[\s*(?P<iq>[\"'])(?P<istr>.*?)(?P=iq)\s*\]|(?P<sq>[\"'])(?P<str>.*?)(?P=sq)|(?P<rangel>\((?=[^(]+?\.\.))|(?P<range>\.\.)"
     r"|(?P<float>-?\d+\.(?!\.)\d*)|(?P<int>-?\d+\b)|(?P<dot>\.)|(?P<word>\w[\w\-]*\??)|(?P<lp>\()|(?P<rp>\))|(?P<lb>\[)|(?P<rb>\])|(?P<colon>:)|(?P<comma>,)"
-    r"|(?P<dpipe>\|\|)|(?P<pipe>\|)|(?P<assign>=)|(?P<ws>[ \n\t\r]+)", re.S)
+    r"|(?P<dpipe>\|\|)|(?P<pipe>\|)|(?P<op>==|!=|<>|<=|>=|<|>)|(?P<assign>=)|(?P<ws>[ \n\t\r]+)", re.S)
 
 
 def expr_tokens(text, vars_by_name):
@@ -726,6 +727,8 @@ def expr_tokens(text, vars_by_name):
             out.append(("EIdentIdx " if k == "iidx" else "EInt ") + g_Z(int(v)))
         elif k == "float":
             out.append(f"EFloat {g_str(v)}")
+        elif k == "op":
+            return None                      # a comparison operator outside a ternary's condition
         else:
             out.append(PUNCT[k][0])
         i += 1
@@ -804,7 +807,7 @@ def g_payload(y):
 
 
 KIND = {"expr": "KExpr", "assign": "KAssign", "loop": "KLoop", "case": "KCase", "when": "KWhen", "cycle": "KCycle", "include": "KInclude",
-        "render": "KRender", "ident": "KIdent"}
+        "render": "KRender", "ident": "KIdent", "capture": "KCapture"}
 SEG_NAMES = ["a", "k", "d", "x", "l", "y", "a b", "it's", "X", "", "1x", "a-b", "é", "size", "first", "if", "empty", "limit", "a?", "contains", "for"]
 WORDS = ["x", "y", "l", "d", "a", "n", "g", "k", "v1", "a-b", "é", "1x", "b?"]
 STRS = ["a", "it's", 'say "hi"', "a\\b", "", " ", "a b", "1", "continue", ", ", "if x else y", "| f"]
@@ -1018,7 +1021,8 @@ def gen_expr_cases(ck):
             toks = ([name] if name[0] == "str" else ident_toks(name[1])) + bind_toks(bind, "for" if bind and bind[0] else "with") + kwargs_toks(args, rng.random() < 0.5)
             return "render", ("render", name, bind, args), toks, "render"
         n = rng.choice(["n", "a b", "1x", "if", "a-b", "a?", "é"])
-        return "ident", ("ident", n), ident_toks(n), rng.choice(["increment", "decrement", "capture"])
+        w = rng.choice(["increment", "decrement", "capture"])
+        return ("capture" if w == "capture" else "ident"), ("ident", n), ident_toks(n), w
 
     for _ in range(2500 if ck.quick else 25000):
         kind, tree, toks, wrap = one()
@@ -1086,132 +1090,192 @@ def run(ck: Check) -> None:
         if r:
             report(ck, src, r, "corpus", counter)
 
-    # ---- A
-    cases, expected, meta = [], [], []
-    cond_meta, searched = [], []
-    conds = list(gen_conditions(ck))
-    srcs = ["{% if " + c12.expr_src(toks) + " %}1{% else %}2{% endif %}" for toks in conds]
-    for toks, src, (r, s) in zip(conds, srcs, batch(srcs)):
-        ck.note_case(("cond", src), nontrivial=not (r and r[0] == "orig-rejected"))
-        ck.count("A.conditions")
-        if r:
-            report(ck, src, r, "A", counter)
-            if r[0] == "orig-rejected":
+    def layer_A():
+        cases, expected, meta = [], [], []
+        cond_meta, searched = [], []
+        conds = list(gen_conditions(ck))
+        srcs = ["{% if " + c12.expr_src(toks) + " %}1{% else %}2{% endif %}" for toks in conds]
+        for toks, src, (r, s) in zip(conds, srcs, batch(srcs)):
+            ck.note_case(("cond", src), nontrivial=not (r and r[0] == "orig-rejected"))
+            ck.count("A.conditions")
+            if r:
+                report(ck, src, r, "A", counter)
+                if r[0] == "orig-rejected":
+                    continue
+            m = re.fullmatch(r"\{% if (.*?) %\}1\{% else %\}2\{% endif %\}", s, re.S)
+            vars_by_name = {t[1].name: t[1] for t in toks if isinstance(t, tuple) and t[0] == "var"}
+            ptoks = cond_tokens(m.group(1), vars_by_name) if m else None
+            if ptoks is None:
+                ck.violation("correspondence", "c04-condition-text-not-tokenisable", f"str() of {src!r} is {s!r}: not a condition over the generated vocabulary",
+                             {"type": "roundtrip", "template": src, "str": s, "broken": "correspondence CondParen.run_print2 ~ BooleanExpression.__str__"}, no_input=True)
                 continue
-        m = re.fullmatch(r"\{% if (.*?) %\}1\{% else %\}2\{% endif %\}", s, re.S)
-        vars_by_name = {t[1].name: t[1] for t in toks if isinstance(t, tuple) and t[0] == "var"}
-        ptoks = cond_tokens(m.group(1), vars_by_name) if m else None
-        if ptoks is None:
-            ck.violation("correspondence", "c04-condition-text-not-tokenisable", f"str() of {src!r} is {s!r}: not a condition over the generated vocabulary",
-                         {"type": "roundtrip", "template": src, "str": s, "broken": "correspondence CondParen.run_print2 ~ BooleanExpression.__str__"}, no_input=True)
-            continue
-        cases.append("{| pc_toks := " + g_list(c12.g_tok(t) for t in toks) + " |}")
-        expected.append("Some " + g_list(c12.g_tok(t) for t in ptoks))
-        meta.append((src, s))
-        cond_meta.append(toks)
-    ck.sample({"template": meta[len(meta) // 2][0], "str": meta[len(meta) // 2][1]})
-    mm = ck.coq_mismatches("cond", IMPORTS, "run_print2", "run_print_eqb", "pcase", "option (list tok)", cases, expected, chunk=400)
-    ck.traces += len(cases)
-    for i in mm[:3]:
-        src, s = meta[i]
-        model = ck.coq_eval(IMPORTS, [f"run_print2 ({cases[i]})"])[0]
-        vsrc, d, diff = search_condition(cond_meta[i], ck.rng)
-        if diff is None and not searched:
-            searched.append(1)
-            vsrc, d, diff = search_small_scope()
-        if diff is not None:
-            ck.violation("impl-violation", f"condition-roundtrip:{vsrc[:100]}",
-                         f"{vsrc!r} (str() = {str(env().from_string(vsrc))!r}) with data {d!r}: original and re-parsed differ: {diff!r}",
-                         {"type": "roundtrip-data", "template": vsrc, "data": d, "found_from": src, "model": model})
-            continue
-        ck.violation("correspondence", "c04-condition-correspondence", f"model CondParen.print2 and str() disagree on {src!r}: str() = {s!r}",
-                     {"type": "roundtrip", "template": src, "str": s, "model": model,
-                      "broken": "correspondence CondParen.run_print2 ~ BooleanExpression.__str__ (theorems C04_condition_roundtrip, C04_condition_idempotent)"}, no_input=True)
-
-    # ---- B
-    cases, expected, meta = [], [], []
-    vals = list(gen_strings(ck))
-    srcs = ["{{ " + ('"' if "'" in v else "'") + v + ('"' if "'" in v else "'") + " }}" for v in vals]
-    for v, src, (r, s) in zip(vals, srcs, batch(srcs)):
-        ck.note_case(("str", v), nontrivial=not (r and r[0] == "orig-rejected"))
-        ck.count("B.string-literals")
-        if r:
-            report(ck, src, r, "B", counter)
-            if r[0] == "orig-rejected":
+            cases.append("{| pc_toks := " + g_list(c12.g_tok(t) for t in toks) + " |}")
+            expected.append("Some " + g_list(c12.g_tok(t) for t in ptoks))
+            meta.append((src, s))
+            cond_meta.append(toks)
+        ck.sample({"template": meta[len(meta) // 2][0], "str": meta[len(meta) // 2][1]})
+        mm = ck.coq_mismatches("cond", IMPORTS, "run_print2", "run_print_eqb", "pcase", "option (list tok)", cases, expected, chunk=400)
+        ck.traces += len(cases)
+        for i in mm[:3]:
+            src, s = meta[i]
+            model = ck.coq_eval(IMPORTS, [f"run_print2 ({cases[i]})"])[0]
+            vsrc, d, diff = search_condition(cond_meta[i], ck.rng)
+            if diff is None and not searched:
+                searched.append(1)
+                vsrc, d, diff = search_small_scope()
+            if diff is not None:
+                ck.violation("impl-violation", f"condition-roundtrip:{vsrc[:100]}",
+                             f"{vsrc!r} (str() = {str(env().from_string(vsrc))!r}) with data {d!r}: original and re-parsed differ: {diff!r}",
+                             {"type": "roundtrip-data", "template": vsrc, "data": d, "found_from": src, "model": model})
                 continue
-        if not (s.startswith("{{ ") and s.endswith(" }}")):
-            continue
-        cases.append("{| sl_value := " + g_str(v) + " |}")
-        expected.append(g_str(s[3:-3]))
-        meta.append((src, s))
-    mm = ck.coq_mismatches("strlit", IMPORTS, "run_quote", "str_eqb", "slcase", "str", cases, expected, chunk=500)
-    ck.traces += len(cases)
-    for i in mm[:3]:
-        src, s = meta[i]
-        ck.violation("correspondence", "c04-string-literal-correspondence", f"model StrLit.quote_string and str() disagree on {src!r}: str() = {s!r}",
-                     {"type": "roundtrip", "template": src, "str": s, "broken": "correspondence StrLit.run_quote ~ StringLiteral.__str__ (theorem C04_string_literal_roundtrip)"}, no_input=True)
+            ck.violation("correspondence", "c04-condition-correspondence", f"model CondParen.print2 and str() disagree on {src!r}: str() = {s!r}",
+                         {"type": "roundtrip", "template": src, "str": s, "model": model,
+                          "broken": "correspondence CondParen.run_print2 ~ BooleanExpression.__str__ (theorems C04_condition_roundtrip, C04_condition_idempotent)"}, no_input=True)
 
-    # ---- E
-    cases, expected, meta = [], [], []
-    paths = list(gen_paths(ck))
-    srcs = ["{{ " + path_source(p, ck.rng) + " }}" for p in paths]
-    for pth, src, (r, s) in zip(paths, srcs, batch(srcs)):
-        ck.note_case(("path", src), nontrivial=not (r and r[0] == "orig-rejected"))
-        ck.count("E.paths")
-        if r:
-            report(ck, src, r, "E", counter)
-            if r[0] == "orig-rejected":
+
+    def layer_B():
+        cases, expected, meta = [], [], []
+        vals = list(gen_strings(ck))
+        srcs = ["{{ " + ('"' if "'" in v else "'") + v + ('"' if "'" in v else "'") + " }}" for v in vals]
+        for v, src, (r, s) in zip(vals, srcs, batch(srcs)):
+            ck.note_case(("str", v), nontrivial=not (r and r[0] == "orig-rejected"))
+            ck.count("B.string-literals")
+            if r:
+                report(ck, src, r, "B", counter)
+                if r[0] == "orig-rejected":
+                    continue
+            if not (s.startswith("{{ ") and s.endswith(" }}")):
                 continue
-        ptoks = path_tokens(s[3:-3]) if s.startswith("{{ ") and s.endswith(" }}") else None
-        if ptoks is None:
-            continue
-        cases.append("{| pth := " + g_path(pth) + " |}")
-        expected.append(g_list(ptoks))
-        meta.append((src, s))
-    mm = ck.coq_mismatches("path", IMPORTS, "run_path", "list_eqb ptok_eqb", "pathcase", "list ptok", cases, expected, chunk=500)
-    ck.traces += len(cases)
-    for i in mm[:3]:
-        src, s = meta[i]
-        model = ck.coq_eval(IMPORTS, [f"run_path ({cases[i]})"])[0]
-        ck.violation("correspondence", "c04-path-correspondence", f"model PathSyntax.print_path and str() disagree on {src!r}: str() = {s!r}",
-                     {"type": "roundtrip", "template": src, "str": s, "model": model[:1500],
-                      "broken": "correspondence PathSyntax.run_path ~ Path.__str__ (theorem C04_path_roundtrip)"}, no_input=True)
+            cases.append("{| sl_value := " + g_str(v) + " |}")
+            expected.append(g_str(s[3:-3]))
+            meta.append((src, s))
+        mm = ck.coq_mismatches("strlit", IMPORTS, "run_quote", "str_eqb", "slcase", "str", cases, expected, chunk=500)
+        ck.traces += len(cases)
+        for i in mm[:3]:
+            src, s = meta[i]
+            ck.violation("correspondence", "c04-string-literal-correspondence", f"model StrLit.quote_string and str() disagree on {src!r}: str() = {s!r}",
+                         {"type": "roundtrip", "template": src, "str": s, "broken": "correspondence StrLit.run_quote ~ StringLiteral.__str__ (theorem C04_string_literal_roundtrip)"}, no_input=True)
 
-    # ---- C
-    cases, expected, meta = [], [], []
-    trees = list(gen_trees(ck))
-    srcs = [tree_source(t) for t in trees]
-    for tree, src, (r, s) in zip(trees, srcs, batch(srcs)):
-        ck.note_case(("tree", src), nontrivial=not (r and r[0] == "orig-rejected"))
-        ck.count("C.tag-trees")
-        if r:
-            report(ck, src, r, "C", counter)
-            if r[0] == "orig-rejected":
+
+    def layer_E():
+        cases, expected, meta = [], [], []
+        paths = list(gen_paths(ck))
+        srcs = ["{{ " + path_source(p, ck.rng) + " }}" for p in paths]
+        for pth, src, (r, s) in zip(paths, srcs, batch(srcs)):
+            ck.note_case(("path", src), nontrivial=not (r and r[0] == "orig-rejected"))
+            ck.count("E.paths")
+            if r:
+                report(ck, src, r, "E", counter)
+                if r[0] == "orig-rejected":
+                    continue
+            ptoks = path_tokens(s[3:-3]) if s.startswith("{{ ") and s.endswith(" }}") else None
+            if ptoks is None:
                 continue
-        cases.append("{| tc_nodes := " + g_nodes(tree) + " |}")
-        expected.append(g_ttoks(tpl_tokens(s)))
-        meta.append((src, s))
-    ck.sample({"template": meta[-1][0], "str": meta[-1][1]})
-    mm = ck.coq_mismatches("tree", IMPORTS, "run_tprint", "tprint_eqb", "tcase", "list ttok", cases, expected, chunk=200)
-    ck.traces += len(cases)
-    for i in mm[:3]:
-        src, s = meta[i]
-        model = ck.coq_eval(IMPORTS, [f"run_tprint ({cases[i]})"])[0]
-        ck.violation("correspondence", "c04-structure-correspondence", f"model TagTree.print_nodes and str() disagree on {src!r}: str() = {s!r}",
-                     {"type": "roundtrip", "template": src, "str": s, "model": model[:2000],
-                      "broken": "correspondence TagTree.run_tprint ~ Node.__str__ of the block/inline tags (theorem C04_structure_roundtrip)"}, no_input=True)
+            cases.append("{| pth := " + g_path(pth) + " |}")
+            expected.append(g_list(ptoks))
+            meta.append((src, s))
+        mm = ck.coq_mismatches("path", IMPORTS, "run_path", "list_eqb ptok_eqb", "pathcase", "list ptok", cases, expected, chunk=500)
+        ck.traces += len(cases)
+        for i in mm[:3]:
+            src, s = meta[i]
+            model = ck.coq_eval(IMPORTS, [f"run_path ({cases[i]})"])[0]
+            ck.violation("correspondence", "c04-path-correspondence", f"model PathSyntax.print_path and str() disagree on {src!r}: str() = {s!r}",
+                         {"type": "roundtrip", "template": src, "str": s, "model": model[:1500],
+                          "broken": "correspondence PathSyntax.run_path ~ Path.__str__ (theorem C04_path_roundtrip)"}, no_input=True)
 
-    # ---- D
-    parsed = 0
-    srcs = list(gen_rich(ck))
-    for src, (r, _s) in zip(srcs, batch(srcs)):
-        ok = not (r and r[0] == "orig-rejected")
-        parsed += ok
-        ck.note_case(("rich", src), nontrivial=ok)
-        ck.count("D.rich-templates" + ("" if ok else ".rejected"))
-        if r:
-            report(ck, src, r, "D", counter)
-    ck.extra["rich_templates_parsed"] = parsed
+
+    def layer_C():
+        cases, expected, meta = [], [], []
+        trees = list(gen_trees(ck))
+        srcs = [tree_source(t) for t in trees]
+        for tree, src, (r, s) in zip(trees, srcs, batch(srcs)):
+            ck.note_case(("tree", src), nontrivial=not (r and r[0] == "orig-rejected"))
+            ck.count("C.tag-trees")
+            if r:
+                report(ck, src, r, "C", counter)
+                if r[0] == "orig-rejected":
+                    continue
+            cases.append("{| tc_nodes := " + g_nodes(tree) + " |}")
+            expected.append(g_ttoks(tpl_tokens(s)))
+            meta.append((src, s))
+        ck.sample({"template": meta[-1][0], "str": meta[-1][1]})
+        mm = ck.coq_mismatches("tree", IMPORTS, "run_tprint", "tprint_eqb", "tcase", "list ttok", cases, expected, chunk=200)
+        ck.traces += len(cases)
+        for i in mm[:3]:
+            src, s = meta[i]
+            model = ck.coq_eval(IMPORTS, [f"run_tprint ({cases[i]})"])[0]
+            ck.violation("correspondence", "c04-structure-correspondence", f"model TagTree.print_nodes and str() disagree on {src!r}: str() = {s!r}",
+                         {"type": "roundtrip", "template": src, "str": s, "model": model[:2000],
+                          "broken": "correspondence TagTree.run_tprint ~ Node.__str__ of the block/inline tags (theorem C04_structure_roundtrip)"}, no_input=True)
+
+
+    def layer_F():
+        fcases = list(gen_expr_cases(ck))
+        srcs = [WRAPS[w][0] % etoks_text(toks, ck.rng) for _k, _t, toks, w in fcases]
+        xcases, xexp, xmeta = [], [], []
+        ycases, yexp, ymeta = [], [], []
+        for (kind, tree, toks, w), src, (r, s) in zip(fcases, srcs, batch(srcs)):
+            rejected = bool(r and r[0] == "orig-rejected")
+            ck.note_case(("expr", src), nontrivial=not rejected)
+            ck.count("F.expressions." + kind + (".rejected" if rejected else ""))
+            case = "{| xc_kind := " + KIND[kind] + "; xc_toks := " + g_list(g_etok(t) for t in toks) + " |}"
+            if rejected:
+                xcases.append(case)
+                xexp.append("None")
+                xmeta.append((src, None))
+                continue
+            if r:
+                report(ck, src, r, "F", counter)
+            m = re.fullmatch(WRAPS[w][1], s, re.S)
+            vars_by_name = {t[1][1].name: t[1][1] for t in toks if t[0] == "cond" and isinstance(t[1], tuple) and t[1][0] == "var"}
+            otoks = expr_tokens(m.group(1), vars_by_name) if m else None
+            if otoks is None:
+                ck.violation("correspondence", "c04-expression-text-not-tokenisable", f"str() of {src!r} is {s!r}: not an expression over the generated vocabulary",
+                             {"type": "roundtrip", "template": src, "str": s, "broken": "correspondence ExprSyntax.run_xprint ~ __str__ of the expression classes"}, no_input=True)
+                continue
+            xcases.append(case)
+            xexp.append("Some " + g_list(otoks))
+            xmeta.append((src, s))
+            if tree is not None:
+                ycases.append("{| yc_payload := " + g_payload(tree) + " |}")
+                yexp.append(g_list(otoks))
+                ymeta.append((src, s))
+        ck.sample({"template": xmeta[len(xmeta) // 3][0], "str": xmeta[len(xmeta) // 3][1]})
+        for name, fn, eqb, ctype, otype, cs, ex, meta_, what in (
+                ("xprint", "run_xprint", "run_xprint_eqb", "xcase", "option (list etok)", xcases, xexp, xmeta, "parser + serialiser"),
+                ("xreprint", "run_xreprint", "run_xprint_eqb", "xcase", "option (list etok)", xcases, xexp, xmeta, "parse, serialise, parse again, serialise"),
+                ("yprint", "run_yprint", "list_eqb etok_eqb", "ycase", "list etok", ycases, yexp, ymeta, "serialiser on the generated tree")):
+            if name == "xreprint":   # where str() does not parse back (the recorded nil finding) the model's second parse fails too: compared where it round-trips
+                keep = [i for i, (src_, s_) in enumerate(meta_) if s_ is None or roundtrip(src_) is None]
+                cs, ex, meta_ = [cs[i] for i in keep], [ex[i] for i in keep], [meta_[i] for i in keep]
+            mm = ck.coq_mismatches(name, IMPORTS, fn, eqb, ctype, otype, cs, ex, chunk=250)
+            ck.traces += len(cs)
+            for i in mm[:3]:
+                src, s = meta_[i]
+                model = ck.coq_eval(IMPORTS, [f"{fn} ({cs[i]})"])[0]
+                ck.violation("correspondence", f"c04-expression-{name}-correspondence", f"model ExprSyntax.{fn} ({what}) and the implementation disagree on {src!r}: str() = {s!r}",
+                             {"type": "roundtrip", "template": src, "str": s, "model": model[:2000],
+                              "broken": f"correspondence ExprSyntax.{fn} ~ parse/__str__ of the expression classes (theorems C04_expression_roundtrip, C04_expression_idempotent)"}, no_input=True)
+
+
+    def layer_D():
+        parsed = 0
+        srcs = list(gen_rich(ck))
+        for src, (r, _s) in zip(srcs, batch(srcs)):
+            ok = not (r and r[0] == "orig-rejected")
+            parsed += ok
+            ck.note_case(("rich", src), nontrivial=ok)
+            ck.count("D.rich-templates" + ("" if ok else ".rejected"))
+            if r:
+                report(ck, src, r, "D", counter)
+        ck.extra["rich_templates_parsed"] = parsed
+
+
+    only = os.environ.get("VERIF_C04_LAYERS", "")       # development aid: run a subset of the layers
+
+    for name, fn in (("A", layer_A), ("B", layer_B), ("E", layer_E), ("C", layer_C), ("F", layer_F), ("D", layer_D)):
+        if not only or name in only:
+            fn()
 
 
 def replay(data) -> int:
